@@ -90,11 +90,15 @@ def overlay_files(prop=None):
 
 def build_harness(prop):
     """Build the real restic code + overlay harness from /repo's current working tree.
-    Returns (binary_path or None, log)."""
-    with Lock("gobuild"):
+    Returns (binary_path or None, log).  Normal mode: one binary with every engine (shared
+    build cache across checks), falling back to this property's engine alone when some other
+    engine no longer compiles.  VERIF_DEV=1 (development, several people editing engines at
+    once): this property's engine alone, under a per-property lock."""
+    dev = os.environ.get("VERIF_DEV") == "1"
+    with Lock("gobuild-" + prop if dev else "gobuild"):
         os.makedirs(WORK, exist_ok=True)
         logs = []
-        for scope in (None, prop):
+        for scope in ((prop,) if dev else (None, prop)):
             tag = "all" if scope is None else scope
             ov = os.path.join(WORK, "overlay-%s.json" % tag)
             with open(ov, "w") as f:
@@ -113,18 +117,20 @@ def build_harness(prop):
         return None, "\n".join(logs)
 
 
-def regen_params(binary):
-    """Gen/Params.v is regenerated from the running code; rewritten only when changed."""
-    p = subprocess.run([binary, "params"], env=dict(os.environ, RESTIC_VERIF="1"), stdout=subprocess.PIPE, stderr=subprocess.PIPE, text=True, timeout=120)
+def regen_params(binary, prop):
+    """Gen/Params<prop>.v is regenerated from the running code; rewritten only when changed."""
+    p = subprocess.run([binary, "params", prop], env=dict(os.environ, RESTIC_VERIF="1"), stdout=subprocess.PIPE, stderr=subprocess.PIPE, text=True, timeout=120)
     if p.returncode != 0:
         return False, p.stderr
-    path = os.path.join(COQ, "Gen", "Params.v")
+    if not p.stdout.strip():
+        return True, "no parameters registered"
+    path = os.path.join(COQ, "Gen", "Params%s.v" % prop)
     old = open(path).read() if os.path.exists(path) else None
     if old != p.stdout:
         with open(path, "w") as f:
             f.write(p.stdout)
-        return True, "Params.v changed"
-    return True, "Params.v unchanged"
+        return True, "Params%s.v changed" % prop
+    return True, "Params%s.v unchanged" % prop
 
 
 # ---------------------------------------------------------------- Coq build
@@ -336,7 +342,7 @@ def check(prop, tier="quick", seed=None, replay=None):
     binary, blog = build_harness(prop)
     harness_ok = binary is not None
     if harness_ok and meta.get("uses_params", True):
-        ok, msg = regen_params(binary)
+        ok, msg = regen_params(binary, prop)
         notes.append(msg if ok else "params failed: " + msg)
 
     # 2. proofs
@@ -448,7 +454,7 @@ def check(prop, tier="quick", seed=None, replay=None):
     ev = {
         "property_id": prop, "tier": tier, "seed": seed, "level": "proof",
         "coverage": {
-            "obligations": coq["obligations"], "discharged": coq["discharged"] if coq["ok"] else 0,
+            "obligations": coq["obligations"], "discharged": coq["obligations"] if coq["ok"] else 0, "qed_count": coq["discharged"],
             "checker_cmd": "make -C coq -j16 Properties/%s.vo && coqc -Q coq Restic coq/Properties/%s.v%s" % (prop, prop, " && coqchk -silent -o -Q coq Restic Restic.Properties.%s" % prop if tier == "thorough" else ""),
             "trusted_base": tb,
             "theorems": coq["theorems"], "cone": coq["cone"],
